@@ -11,13 +11,22 @@ from . import lexcheck, native
 
 
 def native_diag_check(text):
-    """(violated, msg): some malformed token of `text` has no lexical diagnostic on it"""
+    """(violated, msg): some malformed token of `text` has no lexical diagnostic on it (lexer flags), or the text starts
+    with a malformed lexeme per the reference lexeme grammar and token 0 has no diagnostic"""
     o = native.run_one("lex " + native.hexs(text), "dev")
     o2 = native.run_one("lexed " + native.hexs(text), "dev")
     if native.failed(o) or native.failed(o2):
         return True, "native failure " + str(o)[:100]
     errtoks = {e[0] for e in o2["errors"]}
-    import re
+    import re, z3
+    L = lexcheck.lexeme_spec()
+    cs = [ord(c) for c in text]
+    specs = L.malformed_specs(cs)
+    if text.startswith("OPENQASM") and len(text) > 8 and z3.is_true(z3.simplify(L.is_ws(z3.BitVecVal(cs[8], 32)))):
+        specs["malformed_version_header"] = z3.Not(L.version_wellformed(cs[9:]))
+    for nm, cond in specs.items():
+        if z3.is_true(z3.simplify(cond)) and 0 not in errtoks:
+            return True, f"input starts with a malformed lexeme ({nm}) but token 0 {o['tokens'][0][0] if o['tokens'] else None} has no lexical diagnostic"
     for i, (k, ln) in enumerate(o["tokens"]):
         mal = ("terminated: false" in k) or ("empty_int: true" in k) or ("empty_exponent: true" in k) or k == "InvalidIdent" or \
               (k.startswith("OpenQasmVersionStmt") and "false" in k)
@@ -32,6 +41,9 @@ def run(ctx):
     MW = 2 if ctx.quick() else 3
     NT = int(os.environ.get("VERIF_C11_NT", NT)); MW = int(os.environ.get("VERIF_C11_MW", MW))
     f1 = lexcheck.run_diag_tokens(ctx, res, NT)
+    f1v = lexcheck.run_diag_tokens(ctx, res, 3 if ctx.quick() else 4, prefix="OPENQASM ")
+    for k, v in f1v.items():
+        f1.setdefault(k, v)
     f2 = lexcheck.run_whole(ctx, res, MW)
     f2 = {k: v for k, v in f2.items() if "without a lexical diagnostic" in k[0] or v["outcome"] in ("panic", "stuck", "unsupported")}
     known_by_id = {k["id"]: k for k in ctx.known}
